@@ -226,13 +226,15 @@ def cases(draw, precision, int_dtype, float_dtype, large=False):
     wshape = draw(st.sampled_from([(1,), (2,), (3,), (4,), (2,), (3,), (2, 2)]))
     if large:
         # tens of thousands of traces in one or a few very large batches (sizes around powers of two and off them)
-        n = draw(st.sampled_from([4097, 8193, 16385, 20000, 32769, 65537])) + draw(st.integers(-2, 2))
+        n = draw(st.sampled_from([4097, 8193, 16385, 20000, 32769, 65537, 65537, 70001, 131073, 140000])) + draw(st.integers(-2, 2))
         s = draw(st.integers(1, 2))
         wshape = draw(st.sampled_from([(1,), (2,)]))
     W = int(np.prod(wshape))
     seed64 = draw(st.integers(0, 2 ** 63))
     g = np.random.Generator(np.random.PCG64(seed64))
     ncuts = draw(st.integers(0, 2)) if n > 2 else 0
+    if large and draw(st.booleans()):
+        ncuts = 0          # the whole set in ONE update
     cuts = sorted(set(draw(st.lists(st.integers(1, n - 1), min_size=ncuts, max_size=ncuts)))) if n > 1 else []
     same_buffer = False
     if n >= 4 and not large and draw(st.integers(0, 3)) == 0:
@@ -296,7 +298,9 @@ def cases(draw, precision, int_dtype, float_dtype, large=False):
         base = g.normal(size=(n, s)) + offset
         w = int(g.integers(W))
         base[:, 0] += (labels[:, w] % 5) * draw(st.sampled_from([0.0, 0.5, 2.0]))
-        traces = base.astype(tdt)
+        # the same signal in another unit: the three metrics are ratios of variances and do not depend on it
+        unit = draw(st.sampled_from([1.0, 1.0, 1e-9, 1e-5, 1e3]))
+        traces = (base * unit).astype(tdt)
     nb = len(cuts) + 1
     kernels = [draw(st.integers(0, 1)) for _ in range(nb)] if len(classes) <= 9 else []
     return {'kind': 'partitioned', 'dist': metric, 'precision': precision, 'regime': regime, 'traces': traces, 'data': data,
@@ -320,8 +324,8 @@ def units(tier):
         for precision in ('float32', 'float64'):
             us.append({'name': 'gen-%s-%s-%s' % (precision, idt, fdt), 'fn': 'unit_generated',
                        'kwargs': {'precision': precision, 'int_dtype': idt, 'float_dtype': fdt, 'n': 450 if q else 6000}})
-    for precision, idt, fdt in (('float32', 'uint8', 'float32'), ('float64', 'int16', 'float64')):
-        us.append({'name': 'large-%s' % precision, 'fn': 'unit_generated', 'kwargs': {'precision': precision, 'int_dtype': idt, 'float_dtype': fdt, 'n': 12 if q else 150, 'large': True}})
+    for precision, idt, fdt in (('float32', 'uint8', 'float32'), ('float64', 'int16', 'float64'), ('float64', 'uint8', 'float32'), ('float32', 'int8', 'float32')):
+        us.append({'name': 'large-%s-%s' % (precision, idt), 'fn': 'unit_generated', 'kwargs': {'precision': precision, 'int_dtype': idt, 'float_dtype': fdt, 'n': 12 if q else 150, 'large': True}})
     return us
 
 
